@@ -81,7 +81,10 @@ type Response struct {
 	// Relevant for bodyStream only.
 	ImmediateHeaderFlush bool
 
-	bodyStream      io.Reader
+	bodyStream io.Reader
+	// bodyStreamErr: reading the body stream into the body buffer failed (BodyE);
+	// the body stays unknown until it is set or reset, as for Request
+	bodyStreamErr   error
 	w               responseBodyWriter
 	body            *bytebufferpool.ByteBuffer
 	bodyRaw         []byte
@@ -140,7 +143,8 @@ func (resp *Response) SetConnectionClose() {
 
 // SetBodyString sets response body.
 func (resp *Response) SetBodyString(body string) {
-	resp.CloseBodyStream()            //nolint:errcheck
+	resp.CloseBodyStream() //nolint:errcheck
+	resp.bodyStreamErr = nil
 	resp.BodyBuffer().SetString(body) //nolint:errcheck
 }
 
@@ -228,8 +232,14 @@ func (resp *Response) BodyE() ([]byte, error) {
 		_, err := utils.CopyZeroAlloc(zw, resp.bodyStream)
 		resp.CloseBodyStream() //nolint:errcheck
 		if err != nil {
+			bodyBuf.Reset()
+			resp.bodyStreamErr = err
 			return nil, err
 		}
+		return resp.BodyBytes(), nil
+	}
+	if resp.bodyStreamErr != nil {
+		return nil, resp.bodyStreamErr
 	}
 	return resp.BodyBytes(), nil
 }
@@ -294,6 +304,7 @@ func (resp *Response) resetSkipHeader() {
 // ResetBody resets response body.
 func (resp *Response) ResetBody() {
 	resp.bodyRaw = nil
+	resp.bodyStreamErr = nil
 	resp.CloseBodyStream() //nolint:errcheck
 	if resp.body != nil {
 		if resp.body.Cap() <= resp.maxKeepBodySize {
@@ -323,6 +334,7 @@ func (resp *Response) StatusCode() int {
 // It is safe re-using body argument after the function returns.
 func (resp *Response) SetBody(body []byte) {
 	resp.CloseBodyStream() //nolint:errcheck
+	resp.bodyStreamErr = nil
 	if resp.GetHijackWriter() == nil {
 		resp.BodyBuffer().Set(body) //nolint:errcheck
 		return
@@ -371,6 +383,7 @@ func (resp *Response) Hijack() (network.Conn, error) {
 // It is safe re-using p after the function returns.
 func (resp *Response) AppendBody(p []byte) {
 	resp.CloseBodyStream() //nolint:errcheck
+	resp.bodyStreamErr = nil
 	if resp.hijackWriter != nil {
 		resp.hijackWriter.Write(p) //nolint:errcheck
 		return
